@@ -77,6 +77,28 @@ Proof.
     rewrite (PopBase.hgets_keys _ _ _ H1). change (IZR 0) with 0%R in B. lra.
 Qed.
 
+(* ... and no species' quota is negative: every conversion int(math.Floor(.)) in the chain is in range *)
+Lemma count_all_nonneg_ok h : forall l skim total l2 t,
+  count_all h l skim total = Ok (l2, t) ->
+  (forall k, In k (members l) -> exists x, hget h k = Ok x /\ exp_ok (o_exp x)) ->
+  fin skim -> (0 <= FR skim < 1)%R ->
+  forall s, In s l2 -> 0 <= sp_exp s.
+Proof.
+  induction l as [|s0 l IH]; intros skim total l2 t H Hm Fs Hs s Hin.
+  - cbn in H. injection H as <- _. destruct Hin.
+  - apply count_all_cons_ok in H. destruct H as (orgs & e & skim' & l3 & H1 & H2 & H3 & ->).
+    change (members (s0 :: l)) with (sp_orgs s0 ++ members l) in *.
+    unfold count_offspring in H2.
+    assert (Hf : Forall exp_ok (map o_exp orgs)).
+    { apply Forall_forall. intros f Hf. apply in_map_iff in Hf. destruct Hf as (x & <- & Hx).
+      destruct (PopBase.hgets_in _ _ _ _ H1 Hx) as [G K]. destruct (Hm (o_key x)) as (y & Gy & Ey); [apply in_or_app; now left|].
+      rewrite G in Gy. injection Gy as <-. exact Ey. }
+    destruct Hin as [<-|Hin].
+    + cbn [sp_exp sp_with_exp]. pose proof (count_gen_lower _ _ _ _ _ Hf Fs Hs H2). lia.
+    + destruct (count_gen_bound _ _ _ _ _ Hf Fs Hs H2) as (F' & R' & _).
+      exact (IH _ _ _ _ H3 (fun k Hk => Hm k (in_or_app _ _ _ (or_intror Hk))) F' R' s Hin).
+Qed.
+
 (* ---------- "ordinary" adjusted fitness values ---------- *)
 (* what purgeZeroOffspringSpecies reads: finite, 0 <= f <= 2^1000, one of them >= 2^-1000, at most
    2^20 organisms *)
@@ -137,6 +159,29 @@ Proof.
   assert (L : (IZR T < IZR (n + 1))%R).
   { rewrite plus_IZR. rewrite Uv, U52 in *. lra. }
   apply lt_IZR in L. unfold zlen. fold n. lia.
+Qed.
+
+(* under the same hypotheses no quota the chain computes is negative (every ExpectedOffspring is a
+   finite value in [0, 2^21]: the conversions int(math.Floor(.)) are all in range) *)
+Theorem quota_nonneg_adjusted : forall p p' orgs sps T,
+  purge_zero_offspring p = Ok p' ->
+  hgets (p_heap p) (p_orgs p) = Ok orgs ->
+  count_all (p_heap p') (p_species p) 0%float 0 = Ok (sps, T) ->
+  Permutation (members (p_species p)) (p_orgs p) ->
+  adj_ordinary orgs ->
+  forall s, In s sps -> 0 <= sp_exp s.
+Proof.
+  intros p p' orgs sps T Hp Ho Hc Hperm (Hn & Hl & Hbig).
+  unfold zlen in Hn.
+  pose proof (avg_nonzero o_fit orgs Hn Hl Hbig) as Eavg. fold (pz_avg orgs) in Eavg.
+  pose proof (expected_def p p' orgs Hp Ho Eavg) as Hdef. fold (pz_avg orgs) in Hdef.
+  set (avg := pz_avg orgs) in *.
+  assert (Hok : forall k, In k (members (p_species p)) -> exists x, hget (p_heap p') k = Ok x /\ exp_ok (o_exp x)).
+  { intros k Hk. apply (Permutation_in _ Hperm) in Hk. rewrite <- (PopBase.hgets_keys _ _ _ Ho) in Hk.
+    apply in_map_iff in Hk. destruct Hk as (x & <- & Hx). eexists. split; [exact (proj1 (Hdef x Hx))|].
+    cbn [o_exp o_with_exp]. destruct (quot_facts o_fit orgs Hn Hl Hbig x Hx) as (F & [R0 R1] & _).
+    split; [exact F|]. split; [exact R0|]. apply Rle_lt_trans with (1 := R1). apply bpow_lt. lia. }
+  apply (count_all_nonneg_ok _ _ _ _ _ _ Hc Hok fin_zero). rewrite FR_zero. lra.
 Qed.
 
 (* ------------------------------------------------------------------------------------------ *)
@@ -390,8 +435,10 @@ Proof.
       pose proof (Hall _ _ Hkx G0) as Hord. destruct (fit_ordinary_R _ Hord) as [Fy Ry].
       destruct (adj_fit_bounds o age debt n (o_fit x0) Fs Rs Hn' Fy Ry) as (_ & _ & C).
       apply C. now apply fit_sizable_R. }
-  rewrite <- Hsz, <- Elen.
-  exact (quota_total_le_adjusted (p_with p sps1 (p_detached p) (p_orgs p) h1) p2 orgs sps T Ez Ho Hc Hperm Hadj).
+  split.
+  - rewrite <- Hsz, <- Elen.
+    exact (quota_total_le_adjusted (p_with p sps1 (p_detached p) (p_orgs p) h1) p2 orgs sps T Ez Ho Hc Hperm Hadj).
+  - exact (quota_nonneg_adjusted (p_with p sps1 (p_detached p) (p_orgs p) h1) p2 orgs sps T Ez Ho Hc Hperm Hadj).
 Qed.
 
 (* ------------------------------------------------------------------------------------------ *)
@@ -403,10 +450,10 @@ Theorem epoch_succeeds_from_fitness C o gen p x s R NR :
   Part p -> Fresh p -> zlen (p_orgs p) = o_pop_size o -> 0 < o_pop_size o < 2 ^ 31 ->
   GInv C p (s_env s) R NR -> records_traits_ok (s_env s) (zlen (c_tshape C)) ->
   acts_ok o -> survivors_ok o -> PrimFloat.eqb (o_compat_thresh o) 0 = false ->
-  exps_nonneg (p_heap p) -> fitness_ordinary o p -> tape_ok (s_tape s) ->
+  fitness_ordinary o p -> tape_ok (s_tape s) ->
   (exists r, next_epoch o gen p x s = Ok r) \/ next_epoch o gen p x s = OutOfTape.
 Proof.
-  intros HP Fr Hsz Hpop G Hrec HA Sv Hc Hex Hf Ht.
+  intros HP Fr Hsz Hpop G Hrec HA Sv Hc Hf Ht.
   apply (epoch_succeeds C o gen p x s R NR); auto. now apply quota_sum_ok_from_fitness.
 Qed.
 
@@ -499,6 +546,12 @@ Lemma FR_cm1000 : FR cm1000 = bpow radix2 (-1000). Proof. apply FR_pow2_const. v
 Lemma fin_c1000 : fin c1000. Proof. fin_c. Qed.
 Lemma fin_cm1000 : fin cm1000. Proof. fin_c. Qed.
 
+Lemma fin_ltb_infinity x : fin x -> PrimFloat.ltb x infinity = true.
+Proof.
+  intros F. apply fin_sf in F. rewrite ltb_spec, Prim2SF_infinity.
+  destruct (Prim2SF x) as [s|s| |s m e]; try contradiction; destruct s; reflexivity.
+Qed.
+
 Lemma adj_ordinary_of_cmp orgs :
   zlen orgs <= 2 ^ 20 ->
   (forall y, In y orgs -> PrimFloat.leb 0%float (o_fit y) = true /\ PrimFloat.leb (o_fit y) c1000 = true) ->
@@ -541,7 +594,8 @@ Proof.
     apply Hiff in Hk. destruct Hk as (s & Hs & _). intros E. rewrite E in Hs. destruct Hs.
   - exact Hids.
   - intros s k Hs Hk. apply Hiff. eauto.
-  - intros y Hy. apply FloatMonoQuota.leb0_not_lt0. apply Hall, Hy.
+  - unfold zlen. lia.
+  - intros y Hy. destruct (Hl y Hy) as [Fy [Y0 _]]. split; [exact (proj1 (Hall y Hy))|now apply fin_ltb_infinity].
   - intros E. exfalso. change (pz_avg orgs) with (PrimFloat.div (fold_left (fun a x => PrimFloat.add a (o_fit x)) orgs 0%float) (f_of_Z (Z.of_nat (length orgs)))) in E.
     rewrite Eavg in E. discriminate E.
   - split; [exact (A HT)|exact B].
